@@ -62,11 +62,15 @@ TAG_MAP.update(
 
 TYPE_MAP = decoder.TYPE_MAP.copy()
 
-# Put in non-ambiguous types for faster codec lookup
-for typeDecoder in TAG_MAP.values():
+# Put in non-ambiguous types for faster codec lookup. Codecs overridden
+# above must replace what has been inherited with the base map, otherwise
+# they would only be used when no ASN.1 schema is given.
+for tagSet, typeDecoder in TAG_MAP.items():
     if typeDecoder.protoComponent is not None:
         typeId = typeDecoder.protoComponent.__class__.typeId
-        if typeId is not None and typeId not in TYPE_MAP:
+        if typeId is not None and (
+                typeId not in TYPE_MAP or
+                typeDecoder is not decoder.TAG_MAP.get(tagSet)):
             TYPE_MAP[typeId] = typeDecoder
 
 
